@@ -369,6 +369,17 @@ def install(I):
     def m_reserve(I, st, f, args, fr):
         return I.ret(st, UNIT)
 
+    @M(r'^core::slice::<impl \[.*\]>::copy_from_slice$', 'slice::copy_from_slice (panics on a length mismatch)')
+    def m_copy_from_slice(I, st, f, args, fr):
+        dst, src = args[0], deref_val(I, st, args[1])
+        cur = I.read(st, dst.cell, dst.path)
+        if not (isinstance(cur, Agg) and isinstance(src, Agg)):
+            raise Unmodelled('copy_from_slice of %r into %r' % (src, cur))
+        if len(cur.fields) != len(src.fields):
+            return panic(I, st, 'source slice length (%d) does not match destination slice length (%d)' % (len(src.fields), len(cur.fields)))
+        I.write(st, dst.cell, dst.path, Agg(cur.ty, list(src.fields)))
+        return I.ret(st, UNIT)
+
     @M(r'^Vec::<.*>::extend_from_slice$', 'Vec::extend_from_slice')
     def m_extend_from_slice(I, st, f, args, fr):
         r = args[0]
@@ -506,9 +517,59 @@ def install(I):
             return panic(I, st, 'range end index %d out of range for slice of length %d' % (hi, n))
         return I.ret(st, Ref(st.alloc(Agg('[]', seq.fields[lo:hi])), ()))
 
+    @M(r'^core::slice::<impl \[.*\]>::get::<(std::ops::|core::ops::|ops::)?Range<usize>>$', 'slice::get(lo..hi), bounds split into their feasible values')
+    def m_get_range(I, st, f, args, fr):
+        """slice.get(lo..hi): None when lo > hi or hi > len, else the sub-slice (a copy). Symbolic bounds are split into their feasible concrete values
+        (the slice length is concrete, so there are at most len + 1 values for each bound that give Some)."""
+        seq = deref_val(I, st, args[0])
+        if not is_coll(seq, 'Vec', '[]'):
+            raise Unmodelled('range get of %r' % (seq,))
+        r = args[1]
+        if r.ty != 'Range' or len(r.fields) != 2:
+            raise Unmodelled('slice::get with ' + str(r.ty))
+        n = len(seq.fields)
+        lo_t, hi_t = int_of(I, st, r.fields[0]), int_of(I, st, r.fields[1])
+        outs = []
+        rest = st
+
+        def values(s, x):
+            c = x.concrete()
+            if c is not None:
+                return [(s, c)] if c <= n else [], (s if c > n else None)
+            res = []
+            cur = s
+            for k in range(n + 1):
+                cond = x.t == z3.BitVecVal(k, x.t.size())
+                br = branch(I, cur, cond)
+                nxt = None
+                for s2, same in br:
+                    if same:
+                        res.append((s2, k))
+                    else:
+                        nxt = s2
+                if nxt is None:
+                    return res, None
+                cur = nxt
+            return res, cur     # cur: the bound is larger than len
+        los, lo_big = values(st, lo_t)
+        if lo_big is not None:
+            outs.append(Outcome(lo_big, 'ret', NONE))
+        for s1, lo in los:
+            his, hi_big = values(s1, hi_t)
+            if hi_big is not None:
+                outs.append(Outcome(hi_big, 'ret', NONE))
+            for s2, hi in his:
+                if lo > hi:
+                    outs.append(Outcome(s2, 'ret', NONE))
+                else:
+                    outs.append(Outcome(s2, 'ret', some(Ref(s2.alloc(Agg('[]', seq.fields[lo:hi])), ()))))
+        return outs
+
     @M(r'^<Vec<.*> as Index<usize>>::index$|^<VecDeque<.*> as Index<usize>>::index$|^<Vec<.*> as IndexMut<usize>>::index_mut$|^Vec::<.*>::get$|^VecDeque::<.*>::get(_mut)?$|^core::slice::<impl \[.*\]>::get(_mut)?$', 'index / get')
     def m_index(I, st, f, args, fr):
         r = args[0]
+        if isinstance(args[1], Agg) and args[1].ty and args[1].ty.startswith('Range'):
+            return m_get_range(I, st, f, args, fr)
         v = norm_coll(I.read(st, r.cell, r.path), 'Vec')
         i = int_of(I, st, args[1]).concrete()
         if i is None:
